@@ -443,7 +443,7 @@ def thread_programs(cl, nthreads, rng):
     same_dir = rng.random() < 0.6  # most batches: every thread starts in the same direction (shared recursion dictionary)
     first_op = rng.choice(["deserialize", "serialize"])
     for i in range(nthreads):
-        if schema and rng.random() < 0.2:  # schema generation as the very first use (it never waits for an analysis)
+        if schema and rng.random() < 0.3:  # schema generation as the very first use (it never waits for an analysis)
             cand = schema
         else:
             cand = [c for c in heavy if (c[0] == first_op or not same_dir)] or heavy
@@ -769,6 +769,8 @@ def systematic(state, budget, until):
         is_core = name == "mutual2" and (ea, eb) == (0, 1) and oa == ob == "deserialize"
         if not is_core:
             for site, (k1, k2) in sites.items():  # every hook site of A's solo run is a candidate park point (first and last event)
+                if env.quick() and site[0].startswith(("RecursiveChecker.", "RecursiveConversionsVisitor.")):
+                    continue  # quick tier: the analysis / visitor lines are left to the core and to the random part of the plan
                 prio.setdefault((name, site), []).append((case, k1, None))
                 if k2 != k1:
                     prio.setdefault((name, site), []).append((case, k2, None))
